@@ -73,6 +73,16 @@ def gen_cases(tier, seed):
         cases.append({"kind": "head_override_every_round", "iso": iso, "species": ["meat_cattle", "milk_cattle", "chicken", "pig", "meat_sheep"][(k + seed) % 5], "value": [40000000, 1000, 250000][k % 3],
                       "shutoff": ["continued", "long_delayed_shutoff", "continued_after_10_percent_fed"][k % 3], "NMONTHS": [48, 72][k % 2],
                       "scenario": ["no_resilient_foods", "all_resilient_foods"][k % 2], "id": "heads_every_round#%d/%s" % (k, iso)})
+    # the real per-country dispatcher (which prepares each row before the option handling sees it) over every row of the table
+    for k in range(2 if tier == "quick" else 12):
+        o = workload.base_country(NMONTHS=[120, 72, 48][k % 3])
+        if k % 2:
+            for f, vals in workload.families("country").items():
+                if f not in ("scale", "NMONTHS"):
+                    o[f] = rnd.choice(vals)
+            if k % 4 == 1:
+                o.update(crop_disruption="country_nuclear_winter", grasses="country_nuclear_winter")
+        cases.append({"kind": "through_runner", "iso": "ALL", "opts": o, "id": "through_runner#%d" % k})
     for iso in (["ARG", "LUX"] if tier == "quick" else ["ARG", "LUX", "SWT", "USA", "DJI", "NZL"]):
         cases.append({"kind": "end_to_end_rejection", "iso": iso, "gen_seed": seed, "id": "e2e/%s" % iso})
     return cases
@@ -845,8 +855,68 @@ def end_to_end_rejection(case):
     return cx
 
 
+def through_runner(case):
+    """run_model_no_trade for every country of the table in one call, the optimisation rounds replaced by a recorder: the
+    constants each country's run is started with must be the documented function of the submitted options and of that
+    country's row as it stands in the table (the dispatcher's own preparation of the row included)."""
+    import contextlib
+    import io
+    import pandas as pd
+    from src.scenarios.run_model_no_trade import ScenarioRunnerNoTrade
+    from src.scenarios.run_scenario import ScenarioRunner
+
+    tab = pd.read_csv(env.REPO + "/data/no_food_trade/computer_readable_combined.csv")
+    agg = Ctx("WOR")
+    agg.iso = "ALL"
+    opts = copy.deepcopy(case["opts"])
+    submitted = copy.deepcopy(opts)
+    seen_iso = []
+    orig = ScenarioRunner.run_and_analyze_scenario
+
+    class _Res:
+        percent_people_fed = 50.0
+
+    def stub(self, c, t, l, *a, **k):
+        iso = c.get("COUNTRY_CODE") if hasattr(c, "get") else None
+        if iso is None:
+            iso = next((x for x in a if isinstance(x, str) and len(x) == 3 and x.isupper()), "?")
+        seen_iso.append(iso)
+        rows = tab[tab.iso3 == iso]
+        if not len(rows):
+            agg.bad("country_not_in_table", "run started for %r which is not a row of the table" % iso)
+            return _Res()
+        cx = Ctx.__new__(Ctx)
+        cx.iso, cx.glob, cx.row, cx.viol, cx.seen, cx.n = iso, False, rows.iloc[0], agg.viol, agg.seen, agg.n
+        row_mapping(cx, c)
+        for f, v in submitted.items():
+            if f in ("scale",):
+                continue
+            agg.n["values_through_runner"] += 1
+            spec_check(cx, f, v, submitted, c, t)
+        return _Res()
+
+    ScenarioRunner.run_and_analyze_scenario = stub
+    try:
+        with contextlib.redirect_stdout(io.StringIO()):
+            ScenarioRunnerNoTrade().run_model_no_trade(title="r", create_pptx_with_all_countries=False, show_country_figures=False, show_map_figures=False,
+                                                      add_map_slide_to_pptx=False, scenario_option=opts, countries_list=[], return_results=True)
+    except BaseException as e:  # noqa: BLE001
+        if isinstance(e, KeyboardInterrupt):
+            raise
+        agg.bad("documented_option_rejected", "run over every country with %s stopped after %d countries: %r" % (submitted, len(seen_iso), e), family="through_runner")
+    finally:
+        ScenarioRunner.run_and_analyze_scenario = orig
+    if opts != submitted:
+        agg.bad("caller_options_modified", "option dictionary changed by the call: %s" % {k: (submitted.get(k), opts.get(k)) for k in set(opts) | set(submitted) if opts.get(k) != submitted.get(k)}, family="through_runner")
+    agg.n["countries_through_runner"] += len(seen_iso)
+    missing = sorted(set(tab.iso3) - set(seen_iso))
+    if missing and len(seen_iso) > 0 and not any(v["mech"] == "documented_option_rejected" for v in agg.viol):
+        agg.bad("country_skipped_by_runner", "%d rows of the table were not run: %s" % (len(missing), missing[:8]), family="through_runner")
+    return agg
+
+
 def run_case(case, tier):
-    fn = {"values": values, "rejections": rejections, "overrides": overrides, "head_overrides": head_overrides, "head_override_every_round": head_override_every_round, "setter_pairs": setter_pairs,
+    fn = {"values": values, "through_runner": through_runner, "rejections": rejections, "overrides": overrides, "head_overrides": head_overrides, "head_override_every_round": head_override_every_round, "setter_pairs": setter_pairs,
           "end_to_end_rejection": end_to_end_rejection}[case["kind"]]
     cx = fn(case)
     return {"viol": cx.viol, "obs": {"kind": case["kind"], "iso": cx.iso, "counts": dict(cx.n), "viol_counts": dict(cx.seen)}}
